@@ -1,0 +1,12 @@
+//go:build !verif
+
+package verifhook
+
+// Enabled reports whether the package was built with the verif tag.
+const Enabled = false
+
+// At is a no-op without the verif tag.
+func At(point string, args ...uint64) {}
+
+// Pick never overrides without the verif tag.
+func Pick(n uint32) (uint32, bool) { return 0, false }
